@@ -17,7 +17,9 @@ struct Explorer {
 		std::vector<TraceEv> trace;
 		size_t stepBegin = 0, stepEnd = 0;
 		std::vector<PointInfo> points;
+		std::vector<typename E::LogEv> log;	 // logger record (when a logger is attached)
 		Snap before, after;
+		std::vector<int> activityAfter;
 		std::string keyBefore, keyAfter;
 		bool activatedBefore = false, activatedAfter = false;
 		long breaks = 0;
@@ -70,6 +72,7 @@ struct Explorer {
 		x.bad = false;
 		guardSnaps.clear();
 		Runner r;
+		r.useLogger = (props & (P_C06 | P_C16)) != 0 && !noLogger;
 		r.env.monitoring = false;
 		for (const Step& s : node.hist) r.apply(s, opt.fill);
 		if (r.env.engineErrors) engineError("replay: " + r.env.engineErrorText, node.hist);
@@ -104,6 +107,7 @@ struct Explorer {
 		addr.assign(N, nullptr);
 		for (int s = 0; s < N; ++s) addr[s] = vt_access(*r.fsm, s);
 		x.trace = r.env.trace;	// copy before live checks add to it
+		x.log = r.logger.log;
 		liveChecks(r, x);
 		// destruction: everything entered must be exited
 		const size_t destroyBegin = r.env.trace.size();
@@ -255,6 +259,11 @@ struct Explorer {
 	void checkC04(const Node& node, Exec& x);
 	void checkC13(const Node& node, Exec& x);
 	void checkC09(Runner& r, Exec& x);
+	void checkC06(const Node& node, Exec& x);
+	void checkC16(const Node& node, Exec& x);
+	bool noLogger = false, noMonitors = false;
+	void planScenarios(const Node& n);
+	template <typename TTransition> bool payloadOk(const TTransition& t, const Env& e, const std::string& where);
 	void checkC08();
 	void copyCheck(const Node& n, const Op& op, const Exec& ref);
 	std::deque<Node> allNodes;
